@@ -139,6 +139,7 @@ type Interp struct {
 	stubMemo         map[string]Str
 	fs               *fsState
 	parsed           []parsedFile
+	provided         map[string]Value
 	allowFn          map[string]bool // functions of unmodelled packages that may be interpreted
 }
 
